@@ -22,7 +22,7 @@ theorem inv_step (Γ : CustomEnv) (chk : Bool) (B : Base) (fd : FieldDef) (s i :
     ∃ e, setterBody B fd = some e ∧ ∃ x,
       eval Γ chk { raw := .int B.W s, index := .int .usize i, fieldValue := fv } e = .ok (.int B.W x) ∧ Inv B x := by
   have hs : s < 2 ^ B.internal := Nat.lt_of_lt_of_le hinv (two_pow_le_of_le hB.exposed_le)
-  obtain ⟨e, he, x, hev, _, _, hinv'⟩ := eval_setterBody Γ chk B fd s i fv v hB hok hwide hs hi harg
+  obtain ⟨e, he, x, hev, _, _, hinv', _⟩ := eval_setterBody Γ chk B fd s i fv v hB hok hwide hs hi harg
   exact ⟨e, he, x, hev, hinv' hinv⟩
 
 /-- hence the invariant holds after any history of legal writes -/
